@@ -27,8 +27,10 @@
    n >= 4 the sequence {a1; …; an}; legacy_optimized: nested binary Pairs.
 
    Tickets (ticket.py) are (ticketer, contents, amount), rendered as the comb pair address <contents> nat.
-   Not modelled (no values; of_mich rejects, has_type is false): big_map, operation,
-   sapling_state, sapling_transaction; never has no values — see docs/C11.md.
+   A big_map value is its id (VBigMapId, rendered as an integer) or a literal (VMap), as
+   from_micheline_value / to_micheline_value(lazy_diff=None) treat it (big_map.py).
+   Not modelled (no values; of_mich rejects, has_type is false): operation, sapling_state,
+   sapling_transaction; never has no values — see docs/C11.md.
    Behaviour after the FIXLOG repairs #3 #10 #12 #38 #40 #43.  Left as it is (#41, not fixed):
    an address string with a bare trailing '%' is kept verbatim but forged like the bare address —
    such values are outside [has_type] (known finding C11/empty-entrypoint).  Definitions only. *)
@@ -71,7 +73,8 @@ Inductive val :=
 | VList (l : list val)                       (* list, set *)
 | VMap (l : list (val * val))
 | VLambda (code : node)
-| VTicket (a : address) (ep : option bytes) (item : val) (amount : Z).   (* ticketer, contents, amount *)
+| VTicket (a : address) (ep : option bytes) (item : val) (amount : Z)    (* ticketer, contents, amount *)
+| VBigMapId (id : Z).                         (* big_map given by its id; a big_map literal is a VMap *)
 
 (* structural equality *)
 Fixpoint val_eqb (x y : val) {struct x} : bool :=
@@ -110,6 +113,7 @@ Fixpoint val_eqb (x y : val) {struct x} : bool :=
   | VLambda a, VLambda b => node_eqb a b
   | VTicket a e x z, VTicket b f y w =>
       address_eqb a b && option_eqb bytes_eqb e f && val_eqb x y && Z.eqb z w
+  | VBigMapId a, VBigMapId b => Z.eqb a b
   | _, _ => false
   end.
 
@@ -342,6 +346,7 @@ Section Model.
               | Readable => NPrim T_Pair [na; nx; NInt z] []
               | _ => NPrim T_Pair [na; NPrim T_Pair [nx; NInt z] []] []
               end)
+    | VBigMapId id => leaf (NInt id)   (* BigMapType.to_micheline_value(lazy_diff=None) with a pointer *)
     end.
 
   Definition to_mich (m : mode) (v : val) : node := fst (tm m v).
@@ -512,7 +517,18 @@ Section Model.
         | Some [x; i; z] => ticket_of (of_addr AnyAddress x) (of_mich a i) z
         | _ => Reject
         end
-    | TNever | TBigMap _ _ | TOperation | TSaplingState | TSaplingTx => Reject
+    | TBigMap k v =>
+        (* an integer is the id of an existing big_map, a sequence is a literal read like a map *)
+        match n with
+        | NInt id => Ok (VBigMapId id)
+        | NSeq items =>
+            let* l := map_result (fun e => let* kx := elt_parts e in
+                                           let* vk := of_mich k (fst kx) in
+                                           let* vx := of_mich v (snd kx) in Ok (vk, vx)) items in
+            if sorted_strict (map fst l) then Ok (VMap l) else Reject
+        | _ => Reject
+        end
+    | TNever | TOperation | TSaplingState | TSaplingTx => Reject
     end.
 
   (* ---- well-typed values *)
@@ -555,6 +571,9 @@ Section Model.
     | TLambda _ _, VLambda c =>
         match c with NSeq _ => result_eqb node_eqb (lam_norm c) (Ok c) | _ => false end
     | TTicket a, VTicket ad ep x z => addr_ok AnyAddress ad ep && has_type a x && (0 <=? z)%Z
+    | TBigMap _ _, VBigMapId _ => true
+    | TBigMap k x, VMap l =>
+        forallb (fun e => has_type k (fst e) && has_type x (snd e)) l && sorted_strict (map fst l)
     | _, _ => false
     end.
 
